@@ -75,7 +75,9 @@ def arrangements(draw):
     op = draw(st.sampled_from(exprgen.ASSOC))
     n = draw(st.integers(2, 5))
     ops = [draw(exprgen.expr(w, 2)) for _ in range(n)]
-    mode = draw(st.sampled_from(["random", "random", "interacting", "flattening", "repeats"])) if w >= 8 else "random"
+    mode = draw(st.sampled_from(["random", "random", "interacting", "flattening", "repeats", "twins"])) if w >= 8 else "random"
+    if mode == "twins" and w > 16:
+        w = draw(st.sampled_from([8, 16]))
     if mode == "interacting":
         # operands that rewrite rules combine pairwise (a shift and the mask that covers exactly what it leaves, a term and its negation,
         # neutral and absorbing constants): a rule that looks at two operands must not depend on how the list was parenthesised
@@ -85,6 +87,31 @@ def arrangements(draw):
         pool = [X, Y, ["op", ">>", [X, ["int", w, c]]], ["op", "<<", [X, ["int", w, c]]], ["int", w, full >> c], ["int", w, (full << c) & full], ["int", w, (1 << c) - 1],
                 ["int", w, 0], ["int", w, full], ["op", "-", [X]], ["op", "^", [X, Y]], ["op", ">>", [Y, ["int", w, c]]], ["int", w, 1], ["op", "&", [X, ["int", w, full >> c]]]]
         ops = [draw(st.sampled_from(pool)) for _ in range(draw(st.integers(3, 4)))]
+    elif mode == "twins":
+        # operands that differ in ONE field while every surrounding width agrees - the width of a cell below a non-zero-based slice or used
+        # as a condition, its segment, the offset of a slice, the operator of an inner node: a canonical order whose key leaves that field
+        # out lets the two tie and keeps the order they were written in (seed C13-r9-1: key_expr without the width of a cell)
+        P = draw(st.sampled_from([["id", "p32", 32], ["op", "+", [["id", "p32", 32], ["int", 32, 8]]]]))
+        A, B = ["id", "a%d" % w, w], ["id", "b%d" % w, w]
+        o = draw(st.sampled_from([8, 16] if w == 16 else [8]))
+        wide = [W for W in (16, 32, 64) if W >= o + w]
+        seg = draw(st.sampled_from([["id", "ds", 16], ["id", "es", 16]]))
+        fam = draw(st.sampled_from(["width-under-slice", "width-of-condition", "segment", "slice-offset", "inner-operator", "width-in-address"]))
+        if fam == "width-under-slice":
+            pool = [["slice", ["mem", P, W, None], o, o + w] for W in wide]
+        elif fam == "width-of-condition":
+            pool = [["cond", ["mem", P, W, None], A, B] for W in (8, 16, 32)]
+        elif fam == "segment":
+            pool = [["mem", P, w, None], ["mem", P, w, seg], ["mem", P, w, ["int", 16, 0]]]
+        elif fam == "slice-offset":
+            pool = [["slice", ["id", "x64", 64], k, k + w] for k in (8, 16, 24)]
+        elif fam == "inner-operator":
+            pool = [["op", o_, [A, ["int", w, 3]]] for o_ in (">>", "a>>", "<<")]
+        else:
+            pool = [["mem", ["op", "+", [P, ["compose", [[["slice", ["mem", P, W, None], 8, 16], 0, 8], [["int", 24, 0], 8, 32]]]]], w, None] for W in (16, 32, 64)]
+        ops = list(draw(st.permutations(pool)))[:draw(st.integers(2, 3))]
+        if draw(st.booleans()):
+            ops.append(draw(st.sampled_from([A, B, ["int", w, 1]])))
     elif mode == "repeats":
         # a multiset with repeated terms, their inverses and small multiples: rules that combine equal operands (A+A, A^A, A+(-A), A*k+A)
         # see other partners under other bracketings (seed C13-r8-2: (a+a)+(-a) vs a+(a+(-a)))
